@@ -96,7 +96,8 @@ static void run(void)
 	const char *R = CL_WS_UPGRADE_REQUEST;
 	size_t rl = strlen(R);
 	size_t line1 = (size_t)(strstr(R, "\r\n") - R) + 2;
-	int family = xp_choose(4, XP_SCENARIO, "family"); /* 0 truncate+FIN, 1 truncate+reset, 2 corrupt one byte, 3 variants */
+	int family = xp_choose(5, XP_SCENARIO, "family"); /* 0 truncate+FIN, 1 truncate+reset, 2 corrupt one byte, 3 variants, 4 a valid request or a variant while the n-th allocation of the exchange fails */
+	int failing_alloc = 0;
 	struct bytebuf req = {0};
 	bool clearly_invalid = false, complete_valid = false;
 	char what[200];
@@ -118,6 +119,18 @@ static void run(void)
 		clearly_invalid = !same && (size_t)pos < line1 - 2;
 		complete_valid = same;
 		snprintf(what, sizeof(what), "valid upgrade request with byte %d ('%c') replaced by 0x%02x", pos, R[pos] >= 32 ? R[pos] : '?', REPL[r]);
+	} else if (family == 4) {
+		/* an exchange that is cut short because the daemon runs out of memory: answered with an error status or closed, or completed
+		 * all the same - and nothing of it is left behind */
+		int which = xp_choose(4, XP_SCENARIO, "request");
+		failing_alloc = 1 + xp_choose(16, XP_SCENARIO, "failing-allocation");
+		if (which == 0) {
+			bb_append(&req, R, rl);
+		} else {
+			gen_variant(&VARIANTS[which - 1], &req);
+			clearly_invalid = VARIANTS[which - 1].clearly_invalid;
+		}
+		snprintf(what, sizeof(what), "%s while allocation #%d of the exchange fails", which == 0 ? "valid upgrade request" : VARIANTS[which - 1].name, failing_alloc);
 	} else {
 		int v = xp_choose(NVARIANTS, XP_SCENARIO, "variant");
 		gen_variant(&VARIANTS[v], &req);
@@ -127,6 +140,9 @@ static void run(void)
 	struct sim_opts o = {0};
 	jx_boot(&o);
 	int P = jx_open(CL_RAW); /* a bystander that exists throughout */
+	if (failing_alloc > 0) {
+		sim_heap_fail_nth(failing_alloc);
+	}
 	int H = cl_open(CL_WS, ROLE_HTTP, ORG_DEFAULT);
 	/* segmentation: default one chunk; deviation: split at one point, second part after the daemon went quiescent */
 	int split = 0;
@@ -143,6 +159,13 @@ static void run(void)
 		sim_client_send(H, req.p, req.len);
 	}
 	jx_settle();
+	if (failing_alloc > 0) {
+		long fired = sim_heap_failures();
+		sim_heap_fail_nth(0);
+		if (fired == 0) {
+			xp_end_run(); /* the exchange makes fewer allocations */
+		}
+	}
 	struct client *c = &clients[H];
 	int status = c->http_status;
 	bool upgraded = status == 101;
@@ -210,6 +233,6 @@ const struct driver drv_c13 = {
     .name = "c13",
     .property = "C13",
     .run = run,
-    .rule = "a valid upgrade request truncated after every byte count (then FIN / then reset), with every byte replaced by each of {00, space, CR, LF, X, FF}, plus 35 request variants (incl. requests that lack the Upgrade or the Connection: Upgrade header) (wrong path / method / version, malformed request line or header, over-long lines of 511..2000 bytes); with deviation budget 1 each case is also delivered split at every byte position with a would-block in between; non-trivial = cases that must not be upgraded or were not upgraded; states = distinct (bytes, split, ending)",
+    .rule = "a valid upgrade request truncated after every byte count (then FIN / then reset), with every byte replaced by each of {00, space, CR, LF, X, FF}, plus 35 request variants (incl. requests that lack the Upgrade or the Connection: Upgrade header) (wrong path / method / version, malformed request line or header, over-long lines of 511..2000 bytes); the valid request and three variants again while the n-th allocation of the exchange fails (n = 1..16); with deviation budget 1 each case is also delivered split at every byte position with a would-block in between; non-trivial = cases that must not be upgraded or were not upgraded; states = distinct (bytes, split, ending)",
     .assumptions = "only request-line corruptions, truncations and the listed variants are classified as 'clearly not a valid upgrade'; a corrupted byte inside the header block is subject to the resource and shutdown oracle only",
 };
